@@ -17,9 +17,9 @@ RULE = ("histories (3..12 ops) of add/update/delete of APUserSig (tags from {t1,
 TRUSTED = ["App Protect schema validation verdict and RFC 3339 parsing are inputs of the model"]
 ASSUMPTIONS = ["distinct live objects have distinct UIDs"]
 LEVEL_TEXT = ("Lean 4 theorems over the model of ConfigurationImpl: after every signature event the validity flags equal the from-scratch Spec — "
-              "the in-force signature set of a tag is the claimant that beats all others (reconcile_eq_spec), a policy stored as usable/unusable "
-              "agrees with Spec.polUsable after verifyPolicies (flags recomputed, not patched); the result does not depend on map iteration "
-              "order; every flip of a policy is in the returned lists; a requirement that only names a tag accepts any revision.")
+              "the in-force signature set of a tag is the claimant that beats all others (winner_is_champion, reconcile_flags, reconcile_untouched), a policy stored as usable/unusable "
+              "agrees with Spec.polUsable after verifyPolicies (verifyPolicies_flags: flags recomputed, not patched); the result does not depend on map iteration "
+              "order; every flip of a policy is in the returned lists (flips_reported); a requirement that only names a tag accepts any revision.")
 LEVEL_NOTE = "Assurance = weaker of (theorems about the model, correspondence with the real ConfigurationImpl, direct Spec comparison on every op)."
 TECHNIQUE = "Lean 4 proof (champion per tag group; flags = spec after every operation) + model/implementation correspondence"
 
